@@ -152,8 +152,10 @@ def run(ck):
     quick = ck.quick()
     ck.mc("MC_Recode", "MC_Recode_2.cfg", note="all 65 536 two-byte scalars: radix-16, radix-2^w (w=5..8), NAF(5), NAF(8)", workers=8)
     ck.mc("MC_Recode", "MC_Recode_neg.cfg", note="kept counterexample: radix-16 above 2^(8 LEN - 1) overflows the top digit", workers=2, expect_violation=True)
-    ck.mc("MC_ScalarMul", "MC_ScalarMul_29.cfg", note="order-40 group: every algorithm = definition for all points x all 7-bit scalars", workers=12)
-    if not quick:
+    if quick:
+        ck.mc("MC_ScalarMul", "MC_ScalarMul_29_quick.cfg", note="order-40 group: every algorithm = definition for all 40 points x a 28-scalar alphabet (digit classes); small pair phase", workers=12)
+    else:
+        ck.mc("MC_ScalarMul", "MC_ScalarMul_29.cfg", note="order-40 group: every algorithm = definition for all points x all 7-bit scalars", workers=12, timeout=3000)
         ck.mc("MC_ScalarMul", "MC_ScalarMul_29_all.cfg", note="order-40 group, pair phase from every (point, scalar)", workers=12, timeout=3000)
         ck.mc("MC_ScalarMul", "MC_ScalarMul_101.cfg", note="order-88 group", workers=12, timeout=3000)
     ck.apalache("AP_Recode16", 65, "radix-16 recoding: reconstruction, digit ranges, top digit <= 8 for ALL scalars below 2^255")
